@@ -18,33 +18,38 @@ import Valida.Store
 import Valida.Heap
 import ValidaProofs.Lemmas.Basic
 import ValidaProofs.C02
+import ValidaProofs.Lemmas.C08Store
 namespace ValidaProofs
 open Valida ValidaGen
+open C08L
 
 /-- validation copies deeply and writes casts to the copy – as read from the source -/
 theorem C08_copies_in_source : validateDeepCopies = true ∧ castWritesToCopy = true := by
-  sorry
+  exact ⟨rfl, rfl⟩
 
 /-- allocation only appends: existing cells keep their content -/
 theorem C08_alloc_frame (s : Store) (fuel : Nat) (v : PyVal) :
     s.size ≤ (Store.alloc s fuel v).1.size ∧ ∀ i, i < s.size → (Store.alloc s fuel v).1[i]? = s[i]? := by
-  sorry
+  have A := alloc_ok fuel s v
+  exact ⟨A.ext.size_le, A.ext.below⟩
 
 /-- every cell of a freshly allocated structure is new -/
 theorem C08_alloc_fresh (s : Store) (fuel fuel' : Nat) (v : PyVal) :
     ∀ r ∈ Store.reach (Store.alloc s fuel v).1 fuel' (Store.alloc s fuel v).2, s.size ≤ r := by
-  sorry
+  have A := alloc_ok fuel s v
+  exact reach_fresh (A.fresh _ (Nat.le_refl _) (fresh_self s)) fuel' _ A.lo
 
 /-- a deep copy denotes the same value -/
 theorem C08_deepcopy_same_value (s : Store) (fuel : Nat) (r : Nat) (v : PyVal) (h : Store.read s fuel r = some v) :
     Store.read (Store.deepcopy s fuel r).1 (fuel + 1) (Store.deepcopy s fuel r).2 = some v := by
-  sorry
+  simp only [Store.deepcopy, h]
+  exact (alloc_ok fuel s v).read
 
 /-- a write through a root only rewrites cells reachable from that root (and appends) -/
 theorem C08_setAt_frame (s : Store) (root : Nat) (path : List PyVal) (v : PyVal) (s' : Store)
     (h : Store.setAt s root path v = some s') :
     s.size ≤ s'.size ∧ ∀ i, i < s.size → (∀ fuel, i ∉ Store.reach s fuel root) → s'[i]? = s[i]? := by
-  sorry
+  exact rewrites_frame (setAt_rewrites s v s' path root h)
 
 /-- the caller's document is never written: after copying and any sequence of cast write-backs through
     the copy, every cell that existed before holds what it held -/
@@ -52,14 +57,14 @@ theorem C08_callers_document_untouched (s : Store) (fuel : Nat) (root : Nat) (v 
     (hv : Store.read s fuel root = some v) (ws : List (List PyVal × PyVal)) :
     let (s1, copy) := Store.workingCopy s fuel root
     ∀ i, i < s.size → (Store.writes s1 copy ws)[i]? = s[i]? := by
-  sorry
+  exact working_untouched s fuel root v hv ws
 
 /-- … hence the caller's document still denotes the same value -/
 theorem C08_callers_document_same_value (s : Store) (fuel : Nat) (root : Nat) (v : PyVal)
     (hv : Store.read s fuel root = some v) (ws : List (List PyVal × PyVal)) :
     let (s1, copy) := Store.workingCopy s fuel root
     Store.read (Store.writes s1 copy ws) fuel root = some v := by
-  sorry
+  exact read_mono (ext_of_below (working_untouched s fuel root v hv ws)) fuel root v hv
 
 /-- conditions: the combination `list_condition & condition` that `MapOrListValue.filter` builds for
     every node it visits – and any other combination built during a call – leaves every existing
@@ -67,7 +72,7 @@ theorem C08_callers_document_same_value (s : Store) (fuel : Nat) (root : Nat) (v
 theorem C08_conditions_untouched (fuel fuel' : Nat) (h : Heap) (ops : List HOp) (objs : List (Option Nat))
     (hac : h.Acyclic) (hobjs : ∀ o ∈ objs, ∀ i, o = some i → i < h.size) :
     ∀ i, i < h.size → Heap.den (runHistory fuel h objs ops).1 fuel' i = Heap.den h fuel' i := by
-  sorry
+  exact (C02_history fuel fuel' ops h objs hac hobjs).2
 
 /-- repeatable: the model's operations are functions of the values of their inputs, so a call repeated
     on unchanged inputs (after any other calls) returns the same result -/
@@ -75,6 +80,33 @@ theorem C08_repeatable (rules : List RuleM) (doc : PyVal) (others : List (List R
     let r₁ := validate rules doc
     let _ := others.map (fun o => validate o.1 o.2)
     validate rules doc = r₁ := by
-  sorry
+  intro r₁ _; rfl
+
+/-! ### non-vacuity -/
+
+/-- the caller's document `{"a": ["x"]}` at reference 2 -/
+def C08.exampleStore : Store := #[.scalar (.str "x"), .list [0], .dict [(.str "a", 1)]]
+
+def C08.readIs (o : Option PyVal) (e : PyVal) : Bool :=
+  match o with
+  | some v => PyVal.pyEq v e && PyVal.pyEq e v
+  | none => false
+
+/-- a cast write-back `copy["a"][0] = "y"` through the working copy: the copy changes, the caller's
+    document does not -/
+example :
+    let (s1, copy) := Store.workingCopy C08.exampleStore 8 2
+    let s2 := Store.writes s1 copy [([.str "a", .int 0], .str "y")]
+    copy = 5 ∧ s2.size = 7 ∧
+    C08.readIs (Store.read s2 8 copy) (.dict [(.str "a", .list [.str "y"])]) = true ∧
+    C08.readIs (Store.read s2 8 2) (.dict [(.str "a", .list [.str "x"])]) = true := by
+  decide +kernel
+
+/-- with only a shallow copy (`Data.get_original()` alone) the same write reaches the caller's list -/
+example :
+    let (s1, copy) := Store.shallowcopy C08.exampleStore 2
+    let s2 := Store.writes s1 copy [([.str "a", .int 0], .str "y")]
+    C08.readIs (Store.read s2 8 2) (.dict [(.str "a", .list [.str "y"])]) = true := by
+  decide +kernel
 
 end ValidaProofs
